@@ -566,6 +566,7 @@ def _current_keywords(ctx):
 # ------------------------------------------------------------------ protocol
 def correspondence(ctx, corr):
     disabled_unit(ctx, corr)
+    colon_cli_level(ctx, corr)
     nsh = 16
     args = [('exhaustive', s, nsh, ctx.seed, {'maxlen': 3 if ctx.quick else 4, 'quick': ctx.quick}) for s in range(nsh)]
     args += [('random', s, nsh, ctx.seed, {'count': 12 if ctx.quick else 150, 'quick': ctx.quick}) for s in range(nsh)]
@@ -656,7 +657,7 @@ def search(ctx, corr, broken):
             _merge(c2, r)
         for r in par.pmap(_cli_worker, [(s, nsh, ctx.seed + 1000, 6) for s in range(nsh)]):
             _merge(c2, r)
-    cands = [e['input'] for e in list(corr.expect_failures) + list(c2.expect_failures)]
+    cands = [e['input'] for e in list(corr.expect_failures) + list(c2.expect_failures) if 'spec' in e['input']]
     # smallest modules first; shrink a few
     cands.sort(key=lambda i: (len(i['spec']['funcs']), len(repr(i))))
     hits = []
@@ -740,19 +741,53 @@ def _witness_samename():
         shutil.rmtree(d, ignore_errors=True)
 
 
-def _witness_colon_cli():
+COLON_MOD = ('def f():\n    """\n    Example:\n        >>> print(1)\n        1\n    """\n\n\n'
+             'def g():\n    """\n    Example:\n        >>> print(2)\n        3\n\n    Example:\n        >>> print(4)\n        4\n    """\n')
+# target -> (exit status, verdict lines) of `python -m xdoctest <path>::<target>` (no command word)
+COLON_CASES = {'f': (0, [('P', 'f:0')]), 'g': (1, [('F', 'g:0'), ('P', 'g:1')]), 'g:1': (0, [('P', 'g:1')]), 'g:0': (1, [('F', 'g:0')])}
+
+
+def _colon_cli(target, extra=()):
     import subprocess
     import sys
     d = tempfile.mkdtemp(prefix='xdocverif-c10k-')
     try:
         path = os.path.join(d, 'colonmod.py')
         with open(path, 'w') as f:
-            f.write('def f():\n    """\n    Example:\n        >>> print(1)\n        1\n    """\n')
-        p = subprocess.run([sys.executable, '-m', 'xdoctest', path + '::f', '--verbose', '1'], cwd=d, env=R.clean_env(),
+            f.write(COLON_MOD)
+        p = subprocess.run([sys.executable, '-m', 'xdoctest', path + '::' + target, '--verbose', '1'] + list(extra), cwd=d, env=R.clean_env(),
                            stdout=subprocess.PIPE, stderr=subprocess.STDOUT, timeout=120)
         return p.returncode, p.stdout.decode('utf8', 'replace')
     finally:
         shutil.rmtree(d, ignore_errors=True)
+
+
+def _colon_case(target):
+    rc, out = _colon_cli(target)
+    exp_rc, exp_v = COLON_CASES[target]
+    why = []
+    if sorted(R.verdict_lines(out)) != sorted(exp_v):
+        why.append('verdict lines %r, expected %r' % (R.verdict_lines(out), exp_v))
+    if rc != exp_rc:
+        why.append('exit status %r, expected %r' % (rc, exp_rc))
+    sl = R.summary_line(out)
+    nf = sum(1 for v, _ in exp_v if v == 'F')
+    if sl is None or sl['failed'] != nf or sl['passed'] != len(exp_v) - nf:
+        why.append('summary line %r, expected %d failed, %d passed' % (sl, nf, len(exp_v) - nf))
+    return why, rc, out
+
+
+def colon_cli_level(ctx, corr):
+    """`python -m xdoctest path/to/mod.py::name` (the form the pytest front end prints and doctest_module documents), without a
+    command word: runs exactly the named doctest(s); tallies and exit status as for any other run (was K-C10-d, repaired by 6244949)"""
+    for target in sorted(COLON_CASES):
+        corr.count('colon-cli')
+        corr.nontriv(('colon', target))
+        why, rc, out = _colon_case(target)
+        corr.tag('colon-cli:' + ('ok' if not why else 'bad'))
+        if why:
+            corr.expect_fail('colon-cli', {'colon_cli': target}, {'rc': COLON_CASES[target][0], 'verdicts': COLON_CASES[target][1]},
+                             {'rc': rc, 'tail': out[-300:]}, '; '.join(why))
 
 
 def replay_finding(ctx, finding):
@@ -760,9 +795,6 @@ def replay_finding(ctx, finding):
     if kid == 'K-C10-c':
         together, alone = _witness_samename()
         return together == '1/0 0/1 1/0' and alone == '1/0'
-    if kid == 'K-C10-d':
-        rc, out = _witness_colon_cli()
-        return rc == 1 and 'Command must be None if using :: syntax' in out and not R.verdict_lines(out)
     if kid not in KSRC:
         return False
     rc, out = _run_witness(kid)
@@ -778,6 +810,12 @@ def replay_finding(ctx, finding):
 
 def replay(ctx, failing):
     inp = failing['input']
+    if 'colon_cli' in inp:
+        why, rc, out = _colon_case(inp['colon_cli'])
+        print('python -m xdoctest colonmod.py::%s --verbose 1  (module:\n%s)' % (inp['colon_cli'], COLON_MOD))
+        print('exit status %r; output tail:\n%s' % (rc, out[-400:]))
+        print('problems: %s' % ('; '.join(why) or 'none'))
+        return bool(why)
     ok, res = _eval_input(inp)
     print('module:\n' + G.render(inp['spec']))
     if 'treated' in inp:
